@@ -977,6 +977,31 @@ def run(info, out):
             nstruct += 1
             if i % 4 == 0:
                 cases.append(make_variant(rs.fork("v%d" % i), sc))
+        # rescaled twins (own random stream): the same fit posed in other units — knots and abscissae times 2^-k with the smoothing
+        # strength times 2^(-2*porder*k), or all weights AND all smoothing strengths times 2^-m. Exactly equivalent problems (dyadic
+        # factors), so every exact oracle applies unchanged; strengths far below machine epsilon / tiny weights are ordinary here
+        rr = Rng(seed).fork("C09-rescaled")
+        nresc = 0
+        for i, c0 in enumerate(list(cases[ncorpus:])):
+            if i % 9 != 4 or str(c0["id"]).endswith("v") or c0.get("variant_of"):
+                continue            # (variants are compared with their base case: rescale base cases only)
+            c1 = json.loads(json.dumps(c0)); c1["id"] = "r" + str(c0["id"])
+            how = rr.choice(["length", "length", "weight"])
+            if how == "length":
+                k = rr.choice([10, 14, 17, 20])
+                for d in c1["dims"]:
+                    d["knots"] = [v * 2.0 ** -k for v in d["knots"]]
+                    d["coords"] = [v * 2.0 ** -k for v in d["coords"]]
+                    if d["smooth"] != 0.0:
+                        d["smooth"] = d["smooth"] * 2.0 ** (-2 * d["porder"] * k)
+            else:
+                m = rr.choice([30, 50, 62])
+                for e in c1["entries"]:
+                    e[2] = e[2] * 2.0 ** -m
+                for d in c1["dims"]:
+                    d["smooth"] = d["smooth"] * 2.0 ** -m
+            c1["rescaled"] = how
+            cases.append(c1); nresc += 1
         suspicious = (not info["proof_ok"])
         results = process(cases, exe_i, exe_m, pool, out)
         if suspicious or any(r["fails"] for r in results.values()):
